@@ -217,6 +217,7 @@ def run(ctx):
                       "(the literal source of splitwb/splitql is created with size 0 -> 4)" % (hn, field, sorted(covered), N, field), line=h.line)
 
     d6_token_cursor(db, rep)
+    d7_line_copy(db, rep)
 
     # ---- D4: the synthetic name of an inline literal identifies the literal ----------------------------
     # orc_program_append_str_n finds operands BY NAME.  The name made up for an inline literal must therefore be an
@@ -359,3 +360,36 @@ def d6_token_cursor(db, rep):
                       ((f.name, bad[0][0], bad[0][1], sorted(set(range(bad[0][0])) - set(bad[0][1]))) if bad else ("", 0, [], [])), line=loop.line)
     if n < 3:
         raise AnalysisBroken("only %d token loops found in orcparse.c" % n)
+
+
+def d7_line_copy(db, rep):
+    """D7: the parser tokenises a private copy of the current line.  Every copy taken from the text cursor (parser->p) must
+    take the whole line - its length is parser->line_length as determined by the line scanner, not a clamped or otherwise
+    reduced value - or tokens beyond the cut silently disappear and the result depends on spacing."""
+    from flow import linear, single_defs
+    tu = db.tu("orcparse")
+    COPY = {"_strndup": (0, 1), "strndup": (0, 1), "memcpy": (1, 2), "memmove": (1, 2), "strncpy": (1, 2)}
+    n = 0
+    for f in tu.main_functions():
+        sd = None
+        for c in f.calls():
+            if c.name not in COPY:
+                continue
+            si, li = COPY[c.name]
+            a = c.args()
+            src = linear(a[si])
+            if not src or not src[0] or not src[0].endswith("->p") or "parser" not in src[0] and f.params and src[0].split("->")[0] != f.params[0]["name"]:
+                continue
+            sd = sd or single_defs(f)
+            ln = linear(a[li], lambda nm: sd.get(nm))
+            base = src[0][:-len("->p")]
+            n += 1
+            rep.saw(f)
+            ok = ln is not None and ln[0] == base + "->line_length" and ln[1] == -src[1]
+            rep.check(ok, "D7-LINE-COPY", where(f), "%s(%s)" % (c.name, unparse(a[li])[:30]),
+                      "the copy of the current line takes all %s->line_length bytes" % base,
+                      "%s copies `%s` bytes from the text cursor, not the whole line (%s->line_length): what lies beyond is dropped without an error, so a "
+                      "long but valid line (wide padding, deep indentation) parses to a different program" %
+                      (f.name, unparse(sd.get(access_path(strip_casts(a[li])), a[li]))[:80], base), line=c.line)
+    if n < 1:
+        raise AnalysisBroken("no copy out of the parser's text cursor found in orcparse.c")
